@@ -731,6 +731,27 @@ def _string_and_import(repo, rep):
                 isinstance(x, ast.Assign) and
                 src(x.value).startswith("getattr(found, ")
                 for x in ast.walk(hs[0]))
+        # what is imported on a miss is the path *including* the segment
+        # that was missing: the path variable is extended before the step
+        lv = src(loops[0].target)
+        imp = [x for x in ast.walk(hs[0]) if isinstance(x, ast.Call)
+               and src(x.func) == "__import__" and x.args] if hs else []
+        pathvar = src(imp[0].args[0]) if imp else None
+        body = loops[0].body
+        ext = [i for i, st in enumerate(body)
+               if isinstance(st, (ast.AugAssign, ast.Assign))
+               and src(st.targets[0] if isinstance(st, ast.Assign)
+                       else st.target) == pathvar
+               and any(isinstance(x, ast.Name) and x.id == lv
+                       for x in ast.walk(st.value))]
+        tr = [i for i, st in enumerate(body) if isinstance(st, ast.Try)]
+        oke = bool(ext) and bool(tr) and max(ext) < min(tr)
+        rep.check(oke, "R04.7", g.qualname, "the module path imported when "
+                  "an attribute is missing already contains the missing "
+                  "segment (it is extended before the step is tried)",
+                  construct="dotted-path-extended-first", where=L.where(g),
+                  detail="path variable %s extended at %s, step at %s" % (
+                      pathvar, ext, tr))
     rep.check(okr, "R04.7", g.qualname, "a dotted name is resolved by "
               "getattr step by step; a missing sub-module is imported and "
               "the step repeated (the result of __import__('a.b') is 'a', "
